@@ -137,7 +137,23 @@ fn run_batch(eng: &dyn Engine, seed: u64, quick: bool, from: u64, to: u64, worke
     let next = AtomicU64::new(from);
     let min_fail = AtomicU64::new(u64::MAX);
     let agg = Mutex::new(Agg::default());
+    // watchdog: a single run that does not finish within RUN_LIMIT is a harness problem (a generated
+    // workload that makes the library loop or grow without bound), never a verdict
+    const RUN_LIMIT: Duration = Duration::from_secs(300);
+    let in_flight: Mutex<BTreeMap<u64, Instant>> = Mutex::new(BTreeMap::new());
+    let batch_done = std::sync::atomic::AtomicBool::new(false);
+    let workers_left = AtomicU64::new(workers.max(1) as u64);
     std::thread::scope(|sc| {
+        sc.spawn(|| {
+            while !batch_done.load(Ordering::SeqCst) {
+                std::thread::sleep(Duration::from_millis(500));
+                let stuck: Vec<u64> = in_flight.lock().unwrap().iter().filter(|(_, t)| t.elapsed() > RUN_LIMIT).map(|(i, _)| *i).collect();
+                if let Some(i) = stuck.first() {
+                    eprintln!("HARNESS-ERROR: {} run index {} (VERIF_SEED={}) did not finish within {:?}; the generated workload probably makes the library loop or grow without bound", eng.id(), i, seed, RUN_LIMIT);
+                    std::process::exit(2);
+                }
+            }
+        });
         for _ in 0..workers.max(1) {
             let _ = std::thread::Builder::new().stack_size(256 << 20).spawn_scoped(sc, || {
                 sched::install_hooks();
@@ -147,6 +163,7 @@ fn run_batch(eng: &dyn Engine, seed: u64, quick: bool, from: u64, to: u64, worke
                     if i >= to || i > min_fail.load(Ordering::SeqCst) {
                         break;
                     }
+                    in_flight.lock().unwrap().insert(i, Instant::now());
                     let outcome = if eng.fresh_thread_per_run() {
                         // thread-local state a change might introduce must not travel from run to run
                         std::thread::scope(|s2| {
@@ -167,6 +184,7 @@ fn run_batch(eng: &dyn Engine, seed: u64, quick: bool, from: u64, to: u64, worke
                             std::process::exit(2);
                         }
                     };
+                    in_flight.lock().unwrap().remove(&i);
                     local.runs += 1;
                     local.evals += rep.evals;
                     local.logical_time += rep.logical_time;
@@ -206,6 +224,10 @@ fn run_batch(eng: &dyn Engine, seed: u64, quick: bool, from: u64, to: u64, worke
                 for (k, (w, n)) in local.known_hits {
                     let e = g.known_hits.entry(k).or_insert((w, 0));
                     e.1 += n;
+                }
+                drop(g);
+                if workers_left.fetch_sub(1, Ordering::SeqCst) == 1 {
+                    batch_done.store(true, Ordering::SeqCst);
                 }
             });
         }
@@ -458,6 +480,8 @@ fn main() {
         "replay" => cmd_replay(&args),
         "digest" => cmd_digest(&args),
         "dbg-parse" => engines::dbg_parse(args.seed, args.to),
+        "dbg-world" => engines::dbg_world(args.seed, args.from),
+        "dbg-c20" => engines::dbg_c20(args.seed, args.from),
         other => {
             eprintln!("HARNESS-ERROR: unknown command {other}");
             2
